@@ -93,7 +93,7 @@ def impl(need_ferret=True):
         return _impl
     h = repo_hash()
     d = os.path.join(CACHE, "impl", h)
-    with flock("impl"):
+    with flock("impl_" + h):
         if not os.path.exists(os.path.join(d, "OK")):
             shutil.rmtree(d, ignore_errors=True)
             os.makedirs(d)
@@ -110,7 +110,8 @@ def impl(need_ferret=True):
                 open(os.path.join(d, "OK"), "w").write(h)
             finally:
                 shutil.rmtree(scratch, ignore_errors=True)
-            _prune_cache(h)
+            with flock("impl_prune"):
+                _prune_cache(h)
         os.utime(d)
     _impl = Impl(d, h)
     return _impl
@@ -286,7 +287,10 @@ def grep_gate():
         for fn in files:
             if fn.endswith(".v"):
                 p = os.path.join(root, fn)
-                txt = strip_coq_comments(open(p, encoding="utf8", errors="replace").read())
+                try:
+                    txt = strip_coq_comments(open(p, encoding="utf8", errors="replace").read())
+                except FileNotFoundError:      # another check's transient cases_*.v
+                    continue
                 txt = re.sub(r'"[^"]*"', '""', txt)
                 for m in FORBIDDEN.finditer(txt):
                     bad.append("%s: %s" % (os.path.relpath(p, VERIF), m.group(0)))
@@ -317,7 +321,16 @@ def coq_refresh_makefile():
         sh(["coq_makefile", "-f", "_CoqProject", "-o", "Makefile"], cwd=COQ, check=True)
 
 def coq_make(targets=(), timeout=3000):
-    """Full .vo build of the given targets (all if empty) under the make lock. Returns (ok, log)."""
+    """Full .vo build of the given targets (all if empty). Returns (ok, log).
+    Fast path without the lock: if the project file list is current and `make -q` says the targets are up to date."""
+    files = coq_project_files()
+    cp = os.path.join(COQ, "_CoqProject")
+    if targets and os.path.exists(cp) and os.path.exists(os.path.join(COQ, "Makefile")):
+        cur = open(cp).read()
+        if all((f in cur) for f in files):
+            q = sh(["make", "-q"] + list(targets), cwd=COQ)
+            if q.returncode == 0:
+                return True, "(up to date)"
     with flock("coqmake"):
         coq_refresh_makefile()
         cmd = ["timeout", str(timeout), "make", "-j%d" % NCPU] + list(targets)
@@ -326,10 +339,15 @@ def coq_make(targets=(), timeout=3000):
         return p.returncode == 0, log
 
 def coq_compile_log(vfile, timeout=1200):
-    """(Re)compile one project file standalone with coqc and return (ok, output) — used to capture Print Assumptions."""
-    with flock("coqmake"):
-        p = sh(["timeout", str(timeout), "coqc", "-Q", ".", "FV", "-w", "-notation-overridden", vfile], cwd=COQ)
-    return p.returncode == 0, p.stdout.decode("utf8", "replace") + p.stderr.decode("utf8", "replace")
+    """Recompile one project file with coqc into a scratch output (the shared .vo is not touched, no lock needed)
+    and return (ok, output) — used to capture Print Assumptions."""
+    d = tempfile.mkdtemp(prefix="fv_coqlog_")
+    try:
+        p = sh(["timeout", str(timeout), "coqc", "-Q", ".", "FV", "-w", "-notation-overridden",
+                "-o", os.path.join(d, os.path.basename(vfile) + "o"), vfile], cwd=COQ)
+        return p.returncode == 0, p.stdout.decode("utf8", "replace") + p.stderr.decode("utf8", "replace")
+    finally:
+        shutil.rmtree(d, ignore_errors=True)
 
 def parse_assumptions(log):
     """Return list of axioms reported by Print Assumptions in a coqc log, and the number of 'Closed' reports."""
@@ -349,6 +367,7 @@ def count_theorems(vfile):
 def coq_eval(name, content, timeout=1200, mem_kb=12000000):
     """Write coq/gen/cases_<name>.v and run coqc on it (no lock: it only reads compiled .vo). Returns (ok, output)."""
     os.makedirs(GEN, exist_ok=True)
+    name = "%s_p%d" % (name, os.getpid())
     p = os.path.join(GEN, "cases_%s.v" % name)
     open(p, "w").write(content)
     try:
@@ -357,7 +376,7 @@ def coq_eval(name, content, timeout=1200, mem_kb=12000000):
         out = r.stdout.decode("utf8", "replace") + r.stderr.decode("utf8", "replace")
         return r.returncode == 0, out
     finally:
-        for ext in (".vo", ".vok", ".vos", ".glob"):
+        for ext in (".vo", ".vok", ".vos", ".glob", ".v"):
             try: os.remove(os.path.join(GEN, "cases_%s%s" % (name, ext)))
             except OSError: pass
         try: os.remove(os.path.join(GEN, ".cases_%s.aux" % name))
